@@ -109,12 +109,14 @@ def compare(c, impl, model):
         return 'implementation panicked: %s' % impl['panic']
     isched = [[canon_t(a), canon_t(b)] for a, b in impl['before']['sched']]
     if 'multi' in c['job']:
-        sched, feas0, cert_ok, feas1 = model
+        sched, feas0, cert_ok, feas1, mcost = model
         msched = [[canon_t(a), canon_t(b)] for a, b in sched]
         if msched != isched:
             return 'schedule: impl %s model %s' % (isched, msched)
         if impl['eval']['ok'] and feas0 == 1 and cert_ok != 1:
             return 'multi insertion certificate rejected by the model: some step does not pass the modelled evaluation'
+        if impl['eval']['ok'] and impl['eval']['cost'][0] != mcost:
+            return 'multi insertion cost: impl %s, model (route estimate + per-step estimates on the shadow tours) %s' % (impl['eval']['cost'][0], mcost)
         return None
     sched, totals, res, feas0, alts, states = model
     d = state_mismatch(impl.get('digest'), states)
